@@ -66,6 +66,41 @@ Proof.
       fin junk He Hl.
 Qed.
 
+(* the predicate is called on every element exactly once, in list order, whatever it answers *)
+Lemma loop_calls_spec : forall suf fuel pre mid,
+  List.length suf < fuel ->
+  keep_loop_calls J W to_wrapped to_json is_keep fuel (pre ++ mid ++ suf) (List.length pre + List.length mid) (List.length pre)
+  = map to_wrapped suf.
+Proof.
+  induction suf as [|x s IH]; intros fuel pre mid Hf.
+  - destruct fuel; [simpl in Hf; lia|]. cbn [keep_loop_calls]. rewrite app_nil_r.
+    rewrite nth_error_app2 by lia.
+    replace (List.length pre + List.length mid - List.length pre) with (List.length mid) by lia.
+    rewrite (proj2 (nth_error_None mid (List.length mid))) by lia. reflexivity.
+  - destruct fuel; [simpl in Hf; lia|]. simpl in Hf. cbn [keep_loop_calls map]. rewrite nth_error_mid. f_equal.
+    destruct (is_keep (to_wrapped x)) eqn:Hk.
+    + destruct mid as [|y mid'].
+      * simpl app at 1. rewrite set_nth_app. simpl List.length. rewrite Nat.add_0_r.
+        pose proof (IH fuel (pre ++ [rt x]) [] ltac:(lia)) as He.
+        rewrite app_length in He. simpl in He. rewrite Nat.add_0_r in He. rewrite <- app_assoc in He. simpl in He.
+        replace (S (List.length pre)) with (List.length pre + 1) by lia. exact He.
+      * simpl app at 1. rewrite set_nth_app.
+        pose proof (IH fuel (pre ++ [rt x]) (mid' ++ [x]) ltac:(lia)) as He.
+        rewrite !app_length in He. simpl in He.
+        replace ((pre ++ [rt x]) ++ (mid' ++ [x]) ++ s) with (pre ++ to_json (to_wrapped x) :: mid' ++ x :: s) in He
+          by (unfold rt; rewrite <- !app_assoc; reflexivity).
+        simpl List.length.
+        replace (S (List.length pre + S (List.length mid'))) with (List.length pre + 1 + (List.length mid' + 1)) by lia.
+        replace (S (List.length pre)) with (List.length pre + 1) by lia. exact He.
+    + pose proof (IH fuel pre (mid ++ [x]) ltac:(lia)) as He.
+      rewrite app_length in He. simpl in He.
+      replace (pre ++ (mid ++ [x]) ++ s) with (pre ++ mid ++ x :: s) in He by (rewrite <- !app_assoc; reflexivity).
+      replace (S (List.length pre + List.length mid)) with (List.length pre + (List.length mid + 1)) by lia. exact He.
+Qed.
+
+Theorem keep_calls_spec data : keep_calls J W to_wrapped to_json is_keep data = map to_wrapped data.
+Proof. unfold keep_calls. exact (loop_calls_spec data (S (List.length data)) [] [] ltac:(lia)). Qed.
+
 Theorem keep_all_spec data :
   keep_all J W to_wrapped to_json is_keep data = map rt (filter (fun x => is_keep (to_wrapped x)) data).
 Proof.
